@@ -249,10 +249,16 @@ def start_rows(prog: Program, rep: Report) -> None:
         for x in b.body:
             if isinstance(x, ast.Assign) and unparse(x.targets[0]) == "self._df" and "self.start_time" in unparse(x.value):
                 filt = x
-    ok = filt is not None and unparse(filt.value) == "self._df[self._df.index > self.start_time]"
+    from . import c10 as _c10
+
+    def _strict_after_start(v: ast.expr) -> bool:
+        # self._df[<index strictly after the start time>], however the comparison is written
+        return isinstance(v, ast.Subscript) and unparse(v.value) == "self._df" and isinstance(v.slice, ast.Compare) and len(v.slice.ops) == 1 and _c10.norm_cmp(v.slice) == ("self._df.index", ">", "self.start_time")
+
+    ok = filt is not None and _strict_after_start(filt.value)
     rep.check(rule, fi.qual, "warm start: rows at the start time are excluded (strict >)", ok, what_bad=f"filter is {unparse(filt.value) if filt is not None else None}: particles of the restart record would be released a second time", what_ok="index > start_time", loc=fi.loc(filt) if filt is not None else fi.loc())
     # after the inclusive start filter
-    start_f = [n for n in walk_no_nested(fi.node) if isinstance(n, ast.Assign) and unparse(n.targets[0]) == "self._df" and "index >= self.start_time" in unparse(n.value)]
+    start_f = [n for n in walk_no_nested(fi.node) if isinstance(n, ast.Assign) and unparse(n.targets[0]) == "self._df" and isinstance(n.value, ast.Subscript) and isinstance(n.value.slice, ast.Compare) and len(n.value.slice.ops) == 1 and _c10.norm_cmp(n.value.slice) == ("self._df.index", ">=", "self.start_time")]
     rep.check(rule, fi.qual, "strict filter follows the inclusive start filter", filt is not None and bool(start_f) and filt.lineno > start_f[0].lineno, what_bad="order of the filters", what_ok="after", loc=fi.loc())
     # empty table allowed only for warm start: shared with C20
 
